@@ -518,7 +518,7 @@ func main() {
 		src := g.Program()
 		checkProgram(src, g.Feat, inputs...)
 		// `comp` only: a textual mutant of the program (compile error paths, other scoping situations)
-		if m := lib.CompMutate(r, src); m != src {
+		if m := lib.CompMutate(r, src); m != src && (!f.Thorough() || i%2 == 0) {
 			res.Dist("comp-mutants")
 			checkComp(m, inputs)
 		}
